@@ -89,6 +89,8 @@ structure Keys where
   uaf : Bool := false
   /-- ghost: `update_waker` was called for this operation while it was pending -/
   hadWaker : Id → Bool := fun _ => false
+  /-- ghost: the waker passed to the LATEST `update_waker` made while the operation was pending -/
+  lastWaker : Id → Option WakerId := fun _ => none
 
 instance : Inhabited Keys := ⟨{}⟩
 
@@ -123,7 +125,10 @@ def Keys.setWaker (ks : Keys) (id : Id) (w : WakerId) : Keys :=
   { ks with slot := upd ks.slot id ((ks.slot id).setWaker w),
             hadWaker := match ks.slot id with
               | .pending _ => upd ks.hadWaker id true
-              | _ => ks.hadWaker }
+              | _ => ks.hadWaker,
+            lastWaker := match ks.slot id with
+              | .pending _ => upd ks.lastWaker id (some w)
+              | _ => ks.lastWaker }
 
 /-- `Proactor::pop`: `has_result` ? `take_result` (the RawOp is consumed) : `Pending(key)`. -/
 def Keys.pop (ks : Keys) (id : Id) : Keys × Option Res :=
